@@ -215,6 +215,8 @@ def main(argv):
             rep.known_finding('K3', f'{known["K3"]["what"][:150]} ({k3} histories in this run)')
         else:
             rep.violation('a release by a client that does not hold the claim resets the selection (not a listed known finding)', {}, failing_input=True)
+    import transcription
+    transcription.report(rep, ['multi_client_selector', 'mutex_wrapped', 'meta_helpers', 'ilog'])
     gate = proof_gate('C04')
     return rep.finish(gate, 'compiled shells with a multi-client port (generated interfaces; one with claim/release events of unusual names, '
                       'formals and a valued release, multi-client port not last) and 3 registered clients; per shell random histories of '
